@@ -61,6 +61,7 @@ func verifAtom(name string, nfresh int, domain ...string) string
 func verifAssume(c bool)
 func verifAssert(c bool, label string)
 func verifReach(label string)
+func verifOutcome(key, outcome string)
 func verifYield()
 func verifKnown(id string, c bool)
 func verifParam(name string, def int) int
@@ -569,6 +570,29 @@ func replayFile(l *loaded, file string, verbose bool) bool {
 	}
 	end, m := ex.Replay(rf.Violation.Decisions)
 	same := end != nil && end.Kind == rf.Violation.Kind && end.Msg == rf.Violation.Msg
+	if rf.Violation.Kind == "nondeterminism" {
+		// both recorded paths complete, and report different outcomes under the same key
+		outcomeOf := func(mm *Machine) string {
+			if mm != nil {
+				for _, kv := range mm.outcomes {
+					if kv[0] == rf.Violation.OutcomeKey {
+						return kv[1]
+					}
+				}
+			}
+			return "<none>"
+		}
+		ex2 := NewExplorer(l.prog, cfg)
+		ex2.hpkg, ex2.entry, ex2.inits = ex.hpkg, ex.entry, ex.inits
+		end2, m2 := ex2.Replay(rf.Violation.Other)
+		o1, o2 := outcomeOf(m), outcomeOf(m2)
+		same = end != nil && end2 != nil && end.Kind == "ok" && end2.Kind == "ok" && o1 == rf.Violation.Outcome && o2 == rf.Violation.OtherOutcome && o1 != o2
+		if verbose {
+			fmt.Printf("replay of %s kernel %s: two completed paths with the same inputs [%s]\n  path A %v\n    outcome: %s\n  path B %v\n    outcome: %s\n", rf.Property, rf.Kernel, rf.Violation.OutcomeKey, rf.Violation.Other, o2, rf.Violation.Decisions, o1)
+			verbose = false
+			fmt.Printf("  reproduced=%v\n", same)
+		}
+	}
 	if verbose {
 		fmt.Printf("replay of %s kernel %s: engine path ended with %s: %s\n", rf.Property, rf.Kernel, end.Kind, end.Msg)
 		if m != nil {
